@@ -12,8 +12,8 @@ from .usertext import analyze, structure_of
 from scheme.reader import read_all, ReadError, Str, Sym
 
 PID = "C20"
-EXPRS = ["-true", "-name foo -print", "-size +3k -o -print0", "-fprint out -printf '%p\\n'", "-mtime -3 -iname 'a*' , -quit",
-         "-uid 5 -threads 3"]
+EXPRS = ["-true", "-name foo -print", "-mmin -3 -o -print0", "-fprint out -printf '%p\\n' -atime +1", "-mtime -3 -iname 'a*' , -quit",
+         "-uid 5 -threads 3", "-size +3k -o -print0"]
 
 
 def render_with(B, run, ce, path_items):
@@ -192,6 +192,12 @@ def confirm_history(B, rep, expr, pa, qa):
     # the driver renders `x<expr> x<mdt> x<mdt2>...` on one compiled value when several device paths are given
     d = B.ctx.run_native_history(expr, [pa, qa])
     fresh = B.ctx.run_native([expr], "debug", mdt=qa)[0].get("scheme")
+    if d is not None and fresh is not None and d[-1] == fresh:
+        # the witness may need time to pass between the renderings (a clock read at render time): on one compiled value,
+        # qa rendered at once vs qa rendered after pa and a pause
+        d2 = B.ctx.run_native_history(expr, [qa, pa, qa], sleep_ms=1100)
+        if d2 is not None and len(d2) == 3:
+            d, fresh = d2, d2[0]
     if d is None or fresh is None:
         rep.inconclusive.append("render-history witness %r after %r could not be replayed" % (qa, pa))
     elif d[-1] == fresh:
@@ -208,7 +214,10 @@ def confirm_diff(B, rep, expr, pa, qa, cname):
     d = B.ctx.run_native([(expr, pa), (expr, pa), (expr, qa)], "debug")
     s1, s2, s3 = d[0].get("scheme", ""), d[1].get("scheme", ""), d[2].get("scheme", "")
     if cname == "same-path-same-text":
-        if s1 != s2 or d[0].get("again") == "false":
+        if d[0].get("again") != "false":
+            # again with a pause between the two renderings of one compiled value
+            d = B.ctx.run_native([(expr, pa)], "debug", sleep_ms=1100) * 2
+        if d[0].get("again") == "false":
             rep.violation("render:not-repeatable", "%r rendered twice for %r differs" % (expr, pa), dict(expr=expr, mdt=pa))
         else:
             rep.inconclusive.append("repeatability counterexample %r does not reproduce" % expr)
